@@ -153,7 +153,8 @@ def plan_for(pid, tier, seed):
                        monitors_sync=["ThreadsTrace"], monitors_iso=["Isolation"])
         # every single-arena history also decides "the shared empty chunk is never written"
         jobs += arena_corpus(tier, seed, ["history"])
-        return dict(level="model_checking", traces=jobs, special=[],
+        from . import borrow
+        return dict(level="model_checking", traces=jobs, special=[borrow.run_c20],
                     mc=[dict(module="Threads", cfg="Threads", workers=8, timeout=900)],
                     assumptions=["TLC", "footer-store hook (__verif::footer_store) sees every store into a chunk footer",
                                  "data races only on crate-level shared state (chunk footers, the static empty chunk); reads are not hooked"])
